@@ -1,11 +1,17 @@
 // Copyright Amazon.com, Inc. or its affiliates. All Rights Reserved.
 // SPDX-License-Identifier: Apache-2.0
 
+#[cfg(not(all(loom, test, aws_s2n_quic_verif)))]
 use core::{
     marker::PhantomData,
     num::Wrapping,
     ptr::NonNull,
     sync::atomic::{AtomicU32, Ordering},
+};
+#[cfg(all(loom, test, aws_s2n_quic_verif))]
+use {
+    ::loom::sync::atomic::{AtomicU32, Ordering},
+    core::{marker::PhantomData, num::Wrapping, ptr::NonNull},
 };
 
 pub struct Builder<T: Copy> {
